@@ -971,27 +971,23 @@ def cq_ext(s):
 
 
 def cq_tree(t, slot, env0):
+    t = subst_tree(t, slot, env0)
+    if not syn_affine(t):
+        NONAFFINE_AFTER_SUBST[0] = True
+    return cq_tree_(t, slot)
+
+
+def cq_tree_(t, slot):
     k = t[0]
     if k == "c":
         return "(Cst %s)" % cq_qc(fr(t[1]))
     if k == "p":
-        key = (t[1], t[2])
-        if key in slot:
-            return "(Par %d%%nat)" % slot[key]
-        # eliminated parameter (replace_parameter_values / replace_parameter_expressions): the harness substitutes
-        # its declared literal value or, for a dependent parameter, its declared expression
-        dv = env0["__decl__"].get(t[1])
-        if dv is not None and dv["k"] == "exp":
-            return cq_tree(dv["e"], slot, env0)
-        if key not in env0:
-            raise NoEncoding()
-        return "(Cst %s)" % cq_qc(env0[key])
+        return "(Par %d%%nat)" % slot[(t[1], t[2])]
     if k == "neg":
-        return "(Neg %s)" % cq_tree(t[1], slot, env0)
+        return "(Neg %s)" % cq_tree_(t[1], slot)
     if k == "^":
-        return "(Pow %s %d%%nat)" % (cq_tree(t[1], slot, env0), t[2])
-    return "(%s %s %s)" % ({"+": "Add", "-": "Sub", "*": "Mul", "/": "Div"}[k],
-                           cq_tree(t[1], slot, env0), cq_tree(t[2], slot, env0))
+        return "(Pow %s %d%%nat)" % (cq_tree_(t[1], slot), t[2])
+    return "(%s %s %s)" % ({"+": "Add", "-": "Sub", "*": "Mul", "/": "Div"}[k], cq_tree_(t[1], slot), cq_tree_(t[2], slot))
 
 
 def cq_lit(e):
@@ -1009,6 +1005,28 @@ VT = {"float": "TReal", "int": "TInt", "bool": "TBool"}
 
 class NoEncoding(Exception):
     pass
+
+
+NONAFFINE_AFTER_SUBST = [False]
+
+
+def subst_tree(t, slot, env0):
+    """the attribute expression after the implementation eliminated parameters (replace_parameter_values /
+    replace_parameter_expressions): a declared literal value or, for a dependent parameter, its declared expression"""
+    k = t[0]
+    if k == "c":
+        return t
+    if k == "p":
+        key = (t[1], t[2])
+        if key in slot:
+            return t
+        dv = env0["__decl__"].get(t[1])
+        if dv is not None and dv["k"] == "exp":
+            return subst_tree(dv["e"], slot, env0)
+        if key not in env0:
+            raise NoEncoding()
+        return ["c", fs(env0[key])]
+    return [k] + [subst_tree(x, slot, env0) if isinstance(x, list) else x for x in t[1:]]
 
 
 def encode(case, res):
@@ -1034,6 +1052,7 @@ def encode_(case, res):
             for i in range(cnt):
                 slot[(nm, i)] = pos + i
         pos += cnt
+    NONAFFINE_AFTER_SUBST[0] = False
     E = envs(case, res)
     E[0] = dict(E[0])
     E[0]["__decl__"] = {p["name"]: p["attrs"].get("value") for p in case["params"]}
@@ -1112,7 +1131,13 @@ def encode_(case, res):
         points.append("([%s], %s, %s)" % ("; ".join(cq_qc(x) for x in vec), mats(res["meta"][pi]), mats(vm)))
     if not points:
         return None
-    return "(Case [%s] %s [%s] [%s])" % ("; ".join(cats), core.cq_bool(res["rebuilt"] is True), "; ".join(tags), ";\n     ".join(points))
+    rebuilt = res["rebuilt"] is True
+    if rebuilt and subst and NONAFFINE_AFTER_SUBST[0]:
+        # after the implementation substituted parameter values CasADi may fold the expression (0*x, 0/x) into an
+        # affine one while the harness-substituted tree is still syntactically non-affine: evaluate the model on
+        # the direct branch (the observed values must match either way)
+        rebuilt = False
+    return "(Case [%s] %s [%s] [%s])" % ("; ".join(cats), core.cq_bool(rebuilt), "; ".join(tags), ";\n     ".join(points))
 
 
 # =====================================================================================
